@@ -19,7 +19,7 @@ PROPS = {
         level_note='option vectors with ratrec and ratfac both off run under a refinement limit and only their verdicts are checked; '
                    'reference truth = independent exact simplex with certificate re-check; LPs up to ~18x18',
         technique='runtime monitoring: zero-tolerance exact certificate oracle over executions of the exact solver under ASan+UBSan',
-        stages=two_flavour('h_exact', 400, 1600, 6000, 20000, crash_markers=['lifting=1', 'iterative_refinement=0']),
+        stages=two_flavour('h_exact', 400, 1600, 2400, 9600, crash_markers=['lifting=1', 'iterative_refinement=0']),
         minima=lambda t: {'c03.optimal_checked': 200, 'c03.farkas_checked': 40, 'c03.ray_checked': 30, 'c03.verdict_checked': 300,
                           'c03.sync.auto': 100, 'c03.sync.manual': 100, 'c03.sync.onlyreal': 100},
         eval_counter='cases', distinct_set='nontrivial',
@@ -38,7 +38,7 @@ PROPS = {
         level_note='private arrays _rowTypes/_colTypes are read directly (harness opens private members); single-row/column removal is only '
                    'exercised on the last index because the renumbering of other removals is undocumented',
         technique='runtime monitoring: sequential exact mirror of both LPs checked after each API call of seeded histories, under ASan+UBSan',
-        stages=lambda t: two_flavour('h_exact', 400, 1600, 6000, 20000)(t) + [memcheck_stage('h_exact', 48, 1200)(t)],
+        stages=lambda t: two_flavour('h_exact', 400, 1600, 2500, 10000)(t) + [memcheck_stage('h_exact', 48, 320)(t)],
         minima=lambda t: {'memcheck.cases_completed': 45, 'c07.exact_solves': 150, 'c07.sync_checks': 8000, 'c07.op.clearLPReal': 60, 'c07.op.clearLPRational': 60, 'c07.op.changeElementRational(mpq)': 20, 'c07.op.addRowRational(mpq)': 50,
                           'c07.manual_syncLPReal': 50, 'c07.manual_syncLPRational': 50, 'c07.onlyreal_copy_checked': 50},
         eval_counter='cases', distinct_set='nontrivial',
@@ -52,7 +52,7 @@ PROPS = {
 # rides on the C03 case stream of h_exact; registered through the extension point of propdefs/lu.py (evaluated lazily)
 import props as _p  # noqa: E402
 _p.__dict__.setdefault('STAGE_EXTENSIONS', {}).setdefault('C11', []).append(
-    lambda tier: [dict(name='api-asan', harness='h_exact', flavour='asan', cases=300 if tier == 'quick' else 3000, crash_markers=['lifting=1', 'iterative_refinement=0']),
-                  dict(name='api-opt', harness='h_exact', flavour='opt', cases=1200 if tier == 'quick' else 12000, crash_markers=['lifting=1', 'iterative_refinement=0'])])
+    lambda tier: [dict(name='api-asan', harness='h_exact', flavour='asan', cases=300 if tier == 'quick' else 1500, crash_markers=['lifting=1', 'iterative_refinement=0']),
+                  dict(name='api-opt', harness='h_exact', flavour='opt', cases=1200 if tier == 'quick' else 6000, crash_markers=['lifting=1', 'iterative_refinement=0'])])
 _p.__dict__.setdefault('MINIMA_EXTENSIONS', {}).setdefault('C11', []).append(
     lambda tier: {'c11.api.bases_checked': 100, 'c11.api.rows_cols_checked': 200, 'c11.api.solves_checked': 100})
